@@ -296,16 +296,16 @@ def upstream_corpus(repo, maxlen=7000):
 HAND = [
     ('mutual-links', 'module default { type MA { link b -> MB; }; type MB { link a -> MA; multi link many -> MA; }; }'),
     ('self-link', 'module default { type T { link parent -> T; multi link kids := .<parent[is T]; property n := count(.kids); }; }'),
-    ('backlink-pair', 'module default { type P1 { multi link cs := .<p[is C1]; }; type C1 { required link p -> P1; property pn := .p.name; }; '
-                      'abstract type Named { required property name -> str; }; type P2 extending P1, Named; }'),
+    ('backlink-pair', 'module default { type P1 { required property name -> str; multi link cs := .<p[is C1]; }; type C1 { required link p -> P1; property pn := .p.name; }; '
+                      'abstract type Titled { required property title -> str; }; type P2 extending P1, Titled; }'),
     ('nested-modules', 'module default { type A { link b -> default::sub::B; }; module sub { type B { link a -> default::A; property x := count(default::A); }; }; }; '
                        'module other { type C extending default::A, default::sub::B; alias V := (select default::A { b }); }'),
     ('unqualified-in-module', 'module other { type X { property p -> str; link y -> Y; }; type Y extending X; scalar type S extending str; '
                               'function f(a: S) -> str using (<str>a); alias XV := (select X filter .p = f(<S>"a")); }'),
     ('std-shadow', 'module default { scalar type str2 extending str; type Object2 extending Object { property id2 -> uuid; }; '
                    'function len2(s: str) -> int64 using (len(s)); type U { property l := len2("x"); required property s -> str2 { default := <str2>"d"; }; }; }'),
-    ('constraints', 'module default { abstract constraint pos extending min_value { using (__subject__ > 0); errmessage := "neg"; }; '
-                    'scalar type PInt extending int64 { constraint pos(0); }; '
+    ('constraints', 'module default { abstract constraint pos { using (__subject__ > 0); errmessage := "neg"; }; '
+                    'scalar type PInt extending int64 { constraint pos; }; '
                     'type K { required property a -> PInt { constraint exclusive; }; property b -> str { constraint max_len_value(5); constraint regexp(r"^\\w+$"); }; '
                     'constraint exclusive on ((.a, .b)); constraint expression on (.a > 1) except (.b = "x"); index on (.b); index on ((.a, .b)); }; }'),
     ('link-props', 'module default { abstract link rel { property since -> datetime; property weight -> float64 { default := 1.0; }; }; '
@@ -322,7 +322,7 @@ HAND = [
                             'property tt -> array<tuple<x: Col, y: float64>>; property sq -> Seq; multi property tags -> str; '
                             'property isred := .c = Col.Red; }; function pick(c: Col) -> optional str using (<str>c); '
                             'function vs(variadic xs: int64) -> int64 using (sum(array_unpack(xs))); '
-                            'function nd(named only a: int64 = 5, b: optional str = {}) -> int64 using (a); }'),
+                            'function nd(b: optional str = {}, named only a: int64 = 5) -> int64 using (a); }'),
     ('annotations', 'module default { abstract annotation note; abstract inheritable annotation tagl; '
                     'type AN { annotation note := "n"; annotation tagl := "t"; annotation title := "T"; annotation description := "D"; '
                     'property p -> str { annotation note := "pn"; annotation tagl := "pt"; }; index on (.p) { annotation note := "idx"; }; }; '
@@ -336,7 +336,7 @@ HAND = [
                   'overloaded link l -> B1; }; type B2 extending B1 { overloaded property p -> str { constraint max_len_value(3); }; }; '
                   'abstract type Mix { property m -> int64; }; type B3 extending B2, Mix { overloaded property m -> int64 { default := 0; }; }; }'),
     ('multi-computed', 'module default { type W { required property a -> int64; required property b -> int64; property s := .a + .b; property d := .s * 2; '
-                       'property q := (select .d filter .d > 0); multi property all3 := {.a, .b, .s}; link me := (select W filter .id = W.id limit 1); '
+                       'multi property all3 := {.a, .b, .s}; link me := (select W filter .id = W.id limit 1); '
                        'multi link others := (select W filter .a != W.a); required property c := 1; single property e := <str>.a; }; }'),
     ('func-obj', 'module default { type Fo { required property nm -> str; }; function fo(o: Fo) -> str using (o.nm); '
                  'function fos() -> set of Fo using (select Fo); function fcnt() -> int64 using (count(Fo)); '
@@ -347,6 +347,9 @@ HAND = [
                      'property c := .`my prop` + 1; index on (.`from`); }; type `T-1` extending `Select`; scalar type `my scalar` extending str; }'),
     ('module-named-like-std', 'module math { type V { property n -> int64; }; function abs(x: int64) -> int64 using (x); }; '
                               'module default { type MU { property a := math::abs(-1); property b := std::math::abs(-2); link v -> math::V; }; }'),
+    ('session-module-shadows-std', 'module other { function count(x: int64) -> int64 using (x); function len(s: str) -> int64 using (0); }; '
+                                   'module default { type Cn { property d := count({1, 2}); property e := len("abc"); multi property tags -> str; '
+                                   'property nt := count(.tags); }; }'),
     ('mod-std-names', 'module default { type str { property v -> std::str; }; type Us { link s -> default::str; property t -> std::str; }; '
                       'function count(x: int64) -> int64 using (x); type Cn { property c := default::count(1); property d := std::count({1, 2}); }; }'),
 ]
@@ -437,7 +440,7 @@ def modules_of(text):
     return mods, firsts
 
 
-def harmless_sessions(rnd, schema_modules):
+def harmless_sessions(rnd, schema_modules, nextra=1):
     """>= 3 alias maps none of whose alias NAMES equals the first component of a module that can occur
     in the text (std included); the current module varies over: default, an existing other module,
     a module that does not exist, std, and no current module at all"""
@@ -446,7 +449,7 @@ def harmless_sessions(rnd, schema_modules):
     fresh = ['zz_alias', 'al', 'mm', 'cur', 'x1']
     base = [
         [[None, 'default']],
-        [[None, other[0] if other and rnd.random() < 0.6 else 'nonexistent_mod']],
+        [[None, other[0] if other else 'nonexistent_mod']],
         [[None, rnd.choice(['std', 'schema', 'cfg', 'std::math'])], [rnd.choice(fresh), 'default'], [rnd.choice(fresh) + '2', 'std']],
         [],
     ]
@@ -455,8 +458,10 @@ def harmless_sessions(rnd, schema_modules):
         [[rnd.choice(fresh), rnd.choice(mods)], [None, 'sys']],
         [[None, 'default'], ['stdx', 'std'], ['defaultx', 'default']],
         [[None, '__std__']],
+        [[None, 'nonexistent_mod']],
+        [[None, other[-1] if other else 'other']],
     ]
-    return base + [rnd.choice(extra)]
+    return base + rnd.sample(extra, nextra)
 
 
 def colliding_session(rnd, firsts):
@@ -466,3 +471,168 @@ def colliding_session(rnd, firsts):
     if tgt == k:
         tgt = 'other_target'
     return [[k, tgt], [None, 'default']]
+
+
+# =====================================================================================
+#  known-finding predicates (precise, over inputs / observed forms)
+# =====================================================================================
+
+STD_SUBMODULES = ('math', 'cal', 'enc', 'net', 'fts', 'pg', 'net::http')
+
+
+def alias_collides(session, text):
+    """C03-alias-shadows-module: the session has an alias whose NAME equals the first component of a
+    module named in the text (std included), and it does not map the name to itself"""
+    _, firsts = modules_of(text)
+    firsts = set(firsts) | {'std'}
+    for k, v in session:
+        if k is not None and k.split('::')[0] in firsts and k == k.split('::')[0] and v != k:
+            return True
+    return False
+
+
+def early_resolution(sdl_text, cmpres):
+    """C03-migration-body-early-resolution: the schema has a user module M for which std::M exists and
+    the only differences are expressions in which `M::f` became `std::M::f`"""
+    if not isinstance(cmpres, dict) or 'dump_diff' not in cmpres:
+        return False
+    user_mods = set(re.findall(r'module\s+([A-Za-z_][\w:]*)', sdl_text))
+    hit = [m for m in user_mods if m in STD_SUBMODULES]
+    if not hit:
+        return False
+    def norm(v, m):
+        if v[0] != 'expr':
+            return json_text(v)
+        return v[1].replace(f'std::{m}::', f'{m}::')      # the text; the resolved objects differ by definition
+    for d in cmpres['dump_diff']:
+        if d[0] != 'field' or not isinstance(d[3], list) or not isinstance(d[4], list):
+            return False
+        if not any(norm(d[3], m) == norm(d[4], m) for m in hit):
+            return False
+    return True
+
+
+def json_text(v):
+    import json
+    return json.dumps(v)
+
+
+def overloaded_link_order(text, err):
+    """C11-inherited-overloaded-link-order: rejected with "cannot be cast automatically" and the
+    document has an `overloaded` pointer whose owner has a subtype"""
+    return bool(err) and 'cannot be cast automatically' in err.get('msg', '') and 'overloaded' in text
+
+
+def abstract_constraint_base(text, err):
+    """C11-abstract-constraint-base: "constraint 'X' does not exist" where X is an abstract constraint
+    declared in the document and named as a base of another abstract constraint"""
+    if not err:
+        return False
+    m = re.match(r"constraint '([\w:]+)' does not exist", err.get('msg', ''))
+    if not m:
+        return False
+    short = m.group(1).split('::')[-1]
+    return (re.search(r'abstract\s+constraint\s+' + re.escape(short) + r'\b', text) is not None
+            and re.search(r'abstract\s+constraint\s+\w+(?:\([^)]*\))?\s+extending\s+[\w:, ]*\b' + re.escape(short) + r'\b', text) is not None)
+
+
+def alias_nested_shape(text, err):
+    """C11-alias-over-alias-nested-shape: "has no link or property" for a type of the document, and the
+    document has an alias defined over another alias with a nested shape"""
+    if not err or 'has no link or property' not in err.get('msg', ''):
+        return False
+    aliases = re.findall(r'alias\s+(\w+)\s*:=', text)
+    for a in aliases:
+        for b in aliases:
+            if a != b and re.search(r'alias\s+' + re.escape(a) + r'\s*:=\s*\(?\s*(?:select\s+)?(?:[\w:]*::)?' + re.escape(b) + r'\s*\{[^;]*:\s*\{', text):
+                return True
+    return False
+
+
+def c11_reject_finding(text, err):
+    if abstract_constraint_base(text, err):
+        return 'C11-abstract-constraint-base'
+    if overloaded_link_order(text, err):
+        return 'C11-inherited-overloaded-link-order'
+    if alias_nested_shape(text, err):
+        return 'C11-alias-over-alias-nested-shape'
+    return None
+
+
+# =====================================================================================
+#  abstraction of a real DDL text to the C03 model's schema (Part II correspondence)
+# =====================================================================================
+
+_QN = r'(?:[A-Za-z_]\w*|`[^`]+`)(?:::(?:[A-Za-z_]\w*|`[^`]+`))+'
+
+
+def split_statements(ddl):
+    """top-level statements of a DDL text (bracket depth 0, strings skipped)"""
+    out = []
+    depth = 0
+    start = 0
+    i = 0
+    n = len(ddl)
+    while i < n:
+        c = ddl[i]
+        if c in '\'"`$':
+            j = _skip_string(ddl, i)
+            if j != i:
+                i = j
+                continue
+        if c in _OPEN:
+            depth += 1
+        elif c in _CLOSE:
+            depth -= 1
+        elif c == ';' and depth == 0:
+            st = ddl[start:i].strip()
+            if st:
+                out.append(st)
+            start = i + 1
+        i += 1
+    st = ddl[start:].strip()
+    if st:
+        out.append(st)
+    return out
+
+
+def abstract_ddl(ddl):
+    """-> (schema entries [(qualified name, cls, [referenced qualified names])], base names) or None.
+    Only CREATE statements of module-qualified objects; CREATE MODULE is ignored (modules are implicit
+    in the model); anything else (ALTER ...: the text splits an object over several statements) makes
+    the abstraction abstain."""
+    ents = []
+    names = []
+    for st in split_statements(strip_comments(ddl)):
+        low = st.lower()
+        if low.startswith('create module'):
+            continue
+        m = re.match(r'create\s+((?:abstract\s+|required\s+|multi\s+|single\s+|inheritable\s+|scalar\s+|final\s+)*'
+                     r'(?:type|alias|function|global|constraint|annotation|link|property|index))\s+(' + _QN + r')', st, re.I)
+        if not m:
+            return None
+        kind = ' '.join(m.group(1).lower().split())
+        name = m.group(2)
+        if name in names:
+            return None          # overloaded functions: one name, several objects
+        names.append(name)
+        ents.append((name, kind, st))
+    nameset = set(names)
+    out = []
+    base = set()
+    for name, kind, st in ents:
+        body = re.sub(r"'(?:[^'\\]|\\.)*'", "''", st[st.index(name) + len(name):])
+        refs = []
+        for r in re.findall(_QN, body):
+            if r == name:
+                continue
+            if r in nameset:
+                if r not in refs:
+                    refs.append(r)
+            elif r.startswith('std::'):
+                # possibly `std::Type.ptr`-like tails are not produced by the printer
+                if r not in refs:
+                    refs.append(r)
+                base.add(r)
+        out.append((name, kind, refs))
+    return out, sorted(base)
